@@ -147,6 +147,14 @@ class Contract:
             if in_checker and not getattr(e, "__vt_documented__", False):
                 ms[0] = None
                 raise
+            import re as _re
+
+            if isinstance(e, (TypeError, AttributeError)) and not getattr(e, "__vt_documented__", False) and _re.search(r"\b(DN|Sym|Tensor|SymDict|SymSeq|StubNS|AbsTrace|AbsGF)\b( object|'|\))", str(e)):
+                # the real code tripped over one of the verifier's own proxy types (a dependency model handed it a value
+                # of the wrong shape, e.g. a dual number where a tuple of dual numbers was due): a limit of the model
+                # (undecided), not an outcome of the code under verification
+                ms[0] = None
+                raise EngineLimit("the code failed on a proxy value of the verifier: %s" % (str(e)[:200],))
             raise RealRaise(e)
 
     def call(self, case):
